@@ -107,6 +107,12 @@ pub struct Gen<'a> {
     low_card: bool,
 }
 
+/// ISO date of day number `n` (0 = 2000-01-01) in a 12 x 28-day calendar: monotone in `n`.
+pub fn date_of(n: i64) -> String {
+    let n = n.max(0);
+    format!("{:04}-{:02}-{:02}", 2000 + n / 336, (n / 28) % 12 + 1, n % 28 + 1)
+}
+
 const STRS: &[&str] = &[
     "a", "b", "c", "ab", "", "zz", "hello", "A", "b b", "x'y", "0123456789abcdef0123456789abcdef",
 ];
@@ -153,6 +159,22 @@ impl<'a> Gen<'a> {
             } else {
                 self.rng.range(-8, 40) as f64 / 4.0
             }),
+            Ty::SmallInt => Val::Int(if small {
+                self.rng.range(0, 2)
+            } else if self.rng.chance(1, 12) {
+                *self.rng.pick(&[32767i64, -32768])
+            } else {
+                self.rng.range(-5, 20)
+            }),
+            Ty::Decimal => Val::Dec(if small {
+                self.rng.range(0, 1) * 100
+            } else {
+                self.rng.range(-8, 40) * 25
+            }),
+            Ty::Date => {
+                let k = if small { self.rng.range(0, 1) } else { self.rng.range(0, 60) };
+                Val::Date(date_of(7000 + k * 13))
+            }
         }
     }
 
@@ -160,7 +182,7 @@ impl<'a> Gen<'a> {
         // primary keys: mostly fresh, sometimes duplicates of earlier keys
         let dup = self.rng.chance(1, 12);
         match ty {
-            Ty::Int | Ty::BigInt => {
+            Ty::Int | Ty::BigInt | Ty::SmallInt => {
                 if dup {
                     Val::Int(self.rng.range(0, self.next_id.max(1)))
                 } else {
@@ -189,6 +211,20 @@ impl<'a> Gen<'a> {
                 Val::F((self.next_id - 1) as f64 / 4.0)
             }
             Ty::Bool => Val::Bool(self.rng.chance(1, 2)),
+            Ty::Decimal | Ty::Date => {
+                let k = if dup {
+                    self.rng.range(0, self.next_id.max(1))
+                } else {
+                    let k = self.next_id;
+                    self.next_id += 1;
+                    if self.rng.chance(1, 2) { k } else { 1000 - k }
+                };
+                if ty == Ty::Date {
+                    Val::Date(date_of(k * 3))
+                } else {
+                    Val::Dec(k * 25 - 5000)
+                }
+            }
         }
     }
 
@@ -210,7 +246,20 @@ impl<'a> Gen<'a> {
                 (
                     *self
                         .rng
-                        .pick(&[Ty::Int, Ty::Int, Ty::BigInt, Ty::Varchar, Ty::Bool, Ty::Double]),
+                        .pick(&[
+                            Ty::Int,
+                            Ty::Int,
+                            Ty::Int,
+                            Ty::BigInt,
+                            Ty::BigInt,
+                            Ty::Varchar,
+                            Ty::Varchar,
+                            Ty::Bool,
+                            Ty::Double,
+                            Ty::SmallInt,
+                            Ty::Decimal,
+                            Ty::Date,
+                        ]),
                     self.rng.chance(2, 3),
                 )
             };
@@ -343,7 +392,7 @@ impl<'a> Gen<'a> {
                 }
             } else {
                 match c.ty {
-                    Ty::Int | Ty::BigInt => Val::Int(g.rng.range(-10, 1010)),
+                    Ty::Int | Ty::BigInt | Ty::SmallInt => Val::Int(g.rng.range(-10, 1010)),
                     _ => g.key_val(c.ty),
                 }
             }
